@@ -12,7 +12,7 @@ from harness import core, findings, pool, tlc
 PID = "C06"
 POINTS = ["pump.before_read", "pump.put", "pump.closed", "copier.tell", "copier.wrote", "copier.procexit", "copier.drained", "main.before_read", "main.read", "main.loop_ended", "main.waited", "proxy.returned", "proxy.before_close"]
 SIZES = [0, 1, 1023, 1024, 1025, 2048, 4097, 65536, 65537, 150000]
-KINDS = ["lines", "nofinalnl", "oneline", "crlf", "utf8", "binary", "ansi"]
+KINDS = ["lines", "nofinalnl", "oneline", "crlf", "cr", "utf8", "binary", "ansi"]
 FORMS = ["dollar", "object", "iter"]
 STAGES = ["proc", "alias", "proc|cat", "alias|cat", "proc|falias", "proc|cat|cat"]
 THREADING = ["thread", "unthread", "default"]
@@ -34,7 +34,8 @@ def universe(tier, rng, streams):
     for k in KINDS:
         for size in SIZES:
             for form in FORMS:
-                add(payload=k, size=size, form=form, chunk=65536 if size > 5000 else 700, delay_ms=0)
+                # (text views of multi-byte / CR payloads read in several pieces are cheap and decisive: never sampled away)
+                add(payload=k, size=size, form=form, chunk=65536 if size > 5000 else 700, delay_ms=0, always=k in ("utf8", "crlf", "cr") and size in (1025, 2048, 65537))
     # U2: every stage composition x threading x form, payload straddling the read size, non-zero exit code
     for st in STAGES:
         for th in THREADING:
@@ -65,10 +66,24 @@ def universe(tier, rng, streams):
             add(payload=srng.choice(KINDS), size=srng.choice([1024, 1025, 3000, 9000, 70000]), chunk=srng.choice([1, 7, 512, 1024, 4096, 65536]) if False else srng.choice([97, 512, 1024, 4096, 65536]),
                 delay_ms=srng.choice([0, 1, 3]), form=srng.choice(FORMS), stage=st, threading=th, rc=srng.choice([0, 0, 1, 7]),
                 delays={pts[0]: srng.choice([0.002, 0.01, 0.03]), pts[1]: srng.choice([0.002, 0.01, 0.03])}, linger_ms=srng.choice([0, 0, 20]))
+    # U5: the final stage is an alias that produces its output by running commands itself - a callable
+    # wrapping a nested command, a string alias holding an `&&` chain - under every capture form
+    for st in ("nalias", "salias"):
+        for form in FORMS + ["inject"]:
+            for size, chunk in ((700, 700), (4097, 1000), (70000, 65536)):
+                add(stage=st, threading="default", form=form, size=size, chunk=chunk, rc=0 if form == "inject" else 3, always=True)
+    # U6: piece boundaries inside a multi-byte character and between the CR and LF of a CRLF, made
+    # deterministic: 97-byte writes with a pause (97 is coprime to the 15- and 17-byte line lengths of the
+    # payloads, so every offset inside a line becomes a boundary), and an alias writing in bulk that is read
+    # back in 1024-byte pieces
+    for k in ("utf8", "crlf", "cr"):
+        for st, chunk, delay in (("proc", 97, 2), ("alias", 65536, 0), ("alias", 97, 1)):
+            for form in FORMS:
+                add(payload=k, size=4097, stage=st, chunk=chunk, delay_ms=delay, form=form, threading="thread" if st == "proc" else "default", always=True)
     if tier == "quick":
         keep = []
         for i, s in enumerate(scns):
-            if s.get("delays") or (i + rng.randrange(3)) % 3 == 0:
+            if s.get("delays") or s.get("always") or (i + rng.randrange(3)) % 3 == 0:
                 keep.append(s)
         scns = keep
     return scns
@@ -132,7 +147,7 @@ def run(tier, seed, replay=None):
         s = t["scn"]
         whats = {p["what"] for p in o["problems"]}
         rawok = o["kind"] in ("ok", "differs") and not (whats & {".raw_out", ".rtn", "echoed to the terminal"})
-        view = {"dollar": "dollar", "object": "out", "iter": "iter"}[s["form"]]
+        view = {"dollar": "dollar", "inject": "dollar", "object": "out", "iter": "iter"}[s["form"]]
         otraces.append({"scn": s, "cmd": t["cmd"], "obs": o, "feat": {"payload": s["payload"], "size": s["size"], "view": view, "multiread": bool(s["size"] > 1024 or s.get("chunk", 65536) < s["size"])},
                         "steps": [{"cmd": "capture", "obs": {"ok": bool(o["ok"]), "rawok": bool(rawok)}}]})
     ocfg = "SPECIFICATION Spec\nCONSTANTS\n  N = 1\n  PipeCap = 1\n  ReadMax = 1\n  Hint = 1\n  FROrder <- CodeOrder\n  Deviations = {}\n"
@@ -166,7 +181,7 @@ def run(tier, seed, replay=None):
         "samples": [{"cmd": t["cmd"].replace(tlc.scratch_root(), "<scratch>")[-160:], "scn": t["scn"], "outcome": t["steps"][0]["obs"]["kind"], "events": t["nevents"]} for t in out[-3:]],
         "evaluations": len(out),
         "distinct_nontrivial": len({json.dumps(t["scn"], sort_keys=True) for t in out if t["scn"].get("size", 0) > 1024 and (t["scn"].get("delays") or "|" in t["scn"].get("stage", ""))}),
-        "rule": "one case = one real captured command: final stage = external writer process / callable alias / writer piped through cat or an alias filter (1-3 stages), on the threaded, unthreaded or default path, captured with $(), !().out/.raw_out/.rtn or iteration; payload kind (lines, no final newline, one line, CRLF, 2-4-byte UTF-8, binary, ANSI escapes) x size (0 .. 150000 bytes around the 1024-byte read size and the 64 KiB pipe buffer) x write chunking / inter-chunk delay / exit code / exit timing / stderr noise, while one or two of the 13 schedule points of the capture path are delayed by 2-30 ms (fixed streams); the value the caller receives is compared byte for byte with what the final stage was told to write (text views: decoded, CR/CRLF -> LF, escapes stripped, one-line $() without its newline), the exit code with the final stage's, and a pipe standing in for the terminal must stay empty; non-trivial = more than one read size of data with a delayed point or more than one stage",
+        "rule": "one case = one real captured command: final stage = external writer process / callable alias / writer piped through cat or an alias filter (1-3 stages) / an alias that runs commands itself (callable wrapper, string alias holding a chain), on the threaded, unthreaded or default path, captured with $(), !().out/.raw_out/.rtn or iteration; payload kind (lines, no final newline, one line, CRLF, lone CRs, 2-4-byte UTF-8, binary, ANSI escapes) x size (0 .. 150000 bytes around the 1024-byte read size and the 64 KiB pipe buffer) x write chunking / inter-chunk delay / exit code / exit timing / stderr noise, while one or two of the 13 schedule points of the capture path are delayed by 2-30 ms (fixed streams); the value the caller receives is compared byte for byte with what the final stage was told to write (text views: decoded, CR/CRLF -> LF, escapes stripped, one-line $() without its newline), the exit code with the final stage's, and a pipe standing in for the terminal must stay empty; non-trivial = more than one read size of data with a delayed point or more than one stage",
         "outcomes": kinds,
         "max_wall_s": max((t["wall"] for t in out), default=0),
         "trace_validation": {"CaptureTrace": stats, "CaptureObsTrace": ostats},
